@@ -36,6 +36,7 @@ ASSUMPTIONS = [
 ]
 MIN_NONTRIVIAL = {"quick": 10000, "thorough": 120000}
 TIMEOUT = {"quick": 3600, "thorough": 28800}
+AMBIENT = {"tests": ['test_dsp.py', 'test_srs.py'], "monitors": ['resample'], "quick": False}
 EPS = 2.220446049250313e-16
 
 BUDGET = {   # cases per kind
